@@ -1899,3 +1899,65 @@ def generate_vec(src_dir):
             "import Serif.Prelude\n\nset_option linter.unusedVariables false\n\nnamespace Serif.Gen.TV\nopen Serif\n\n"
             + "\n\n".join(parts) + "\n\nend Serif.Gen.TV\n")
     return text, errors
+
+
+# ---------------------------------------------------------------------------------------------
+# Table.__init__ / Table.__setattr__: the length validation that keeps tables rectangular
+# ---------------------------------------------------------------------------------------------
+def translate_table_lengths(src):
+    tree = ast.parse(src)
+    init = find_func(tree, "__init__", "Table")
+    stmts = [s for s in init.body if not (isinstance(s, ast.Expr) and isinstance(s.value, ast.Constant))]
+    k = [i for i, s in enumerate(stmts) if ast.unparse(s) == "self._length = len(initial[0]) if initial else 0"]
+    if len(k) != 1 or k[0] + 1 >= len(stmts):
+        raise TranslateError("Table.__init__: _length")
+    loop = stmts[k[0] + 1]
+    if not (isinstance(loop, ast.For) and ast.unparse(loop.target) == "vec" and ast.unparse(loop.iter) == "initial"
+            and len(loop.body) == 1 and isinstance(loop.body[0], ast.If) and ast.unparse(loop.body[0].test) == "len(vec) != self._length"
+            and len(loop.body[0].body) == 1 and isinstance(loop.body[0].body[0], ast.Raise)
+            and ast.unparse(loop.body[0].body[0].exc).startswith("SerifValueError(") and not loop.body[0].orelse):
+        raise TranslateError("Table.__init__: length loop")
+    # nothing between the two statements and no earlier statement may assign _length
+    if any("_length" in ast.unparse(s) for s in stmts[:k[0]]):
+        raise TranslateError("Table.__init__: _length assigned earlier")
+    out = ["/-- translated from `Table.__init__`: `self._length = len(initial[0]) if initial else 0`, then `for vec in initial: if len(vec)\n"
+           "    != self._length: raise SerifValueError` (`lens` are the lengths of the given columns; `.ok` carries `_length`) -/\n"
+           "def tableInitLengthT (lens : List Nat) : Except Err Nat :=\n"
+           "  let length := if !lens.isEmpty then lens.headD 0 else 0\n"
+           "  match lens.foldlM (fun (_ : Unit) len_vec => if len_vec != length then (.error Err.value : Except Err Unit) else .ok ()) () with\n"
+           "  | .error e => .error e\n  | .ok _ => .ok length"]
+    sa = find_func(tree, "__setattr__", "Table")
+    guards = [s for s in ast.walk(sa) if isinstance(s, ast.If) and "len(value)" in ast.unparse(s.test)]
+    if len(guards) != 2:
+        raise TranslateError("Table.__setattr__: two length guards expected")
+    for g in guards:
+        if ast.unparse(g.test) != "self._underlying and len(value) != self._length" or g.orelse or len(g.body) != 1 \
+                or not isinstance(g.body[0], ast.Raise) or not ast.unparse(g.body[0].exc).startswith("ValueError("):
+            raise TranslateError("Table.__setattr__: guard " + ast.unparse(g.test)[:60])
+    out.append("/-- translated from both column-replacement paths of `Table.__setattr__`: `if self._underlying and len(value) !=\n"
+               "    self._length: raise ValueError` (`ncols` = `len(self._underlying)`) -/\n"
+               "def setattrRefusesT (ncols lenValue length : Nat) : Bool :=\n  (ncols != 0) && (lenValue != length)")
+    ln = find_func(tree, "__len__", "Table")
+    want = ["if len(self._underlying) == 0:\n    return 0", "if isinstance(self._underlying[0], Table):\n    return len(self._underlying)",
+            "return self._length"]
+    if [ast.unparse(s) for s in ln.body if not (isinstance(s, ast.Expr) and isinstance(s.value, ast.Constant))] != want:
+        raise TranslateError("Table.__len__")
+    out.append("/-- translated from `Table.__len__` (`firstIsTable`: the first column is itself a Table) -/\n"
+               "def tableLenT (ncols : Nat) (firstIsTable : Bool) (length : Nat) : Nat :=\n"
+               "  if ncols == 0 then 0 else if firstIsTable then ncols else length")
+    return out
+
+
+def generate_tab(src_dir):
+    """eighth generated file: the length validation of Table"""
+    parts, errors = [], []
+    try:
+        parts += translate_table_lengths(open(os.path.join(src_dir, "table.py")).read())
+    except Exception as ex:
+        errors.append(("table_lengths", f"{type(ex).__name__}: {ex}"))
+        parts.append(f"-- table_lengths: not translated ({type(ex).__name__})")
+    text = ("/- GENERATED by harness/py2lean.py from /repo's working tree — do not edit.\n"
+            "   Length validation of Table.__init__ / __setattr__ and Table.__len__; theorems in Serif/Tie/Tab.lean. -/\n"
+            "import Serif.Prelude\n\nset_option linter.unusedVariables false\n\nnamespace Serif.Gen.TT\nopen Serif\n\n"
+            + "\n\n".join(parts) + "\n\nend Serif.Gen.TT\n")
+    return text, errors
